@@ -8,6 +8,11 @@ For every (op, since_version) of the default domain that is the effective schema
 * `raw`  — what `BuilderBase._cast_inputs` sees: `BuilderBase._get_schema(...)` (the raw `OpSchema`):
            per input `type_str`, `option == Variadic`, `is_homogeneous`.
 
+Rows are keyed by the registry's own answer `onnx.defs.get_schema(name, opset)` (not code under test).  A front
+end whose lookup answers with a different version of the operator is recorded in `problems` (c12.py turns that
+into a VIOLATION with a concrete call) and the row falls back to the registry's schema, so the table stays the
+per-version rule and is not rebuilt because of a broken lookup.
+
 Both are obtained by calling the repository's own code paths, so a change in how a front end reads a
 schema changes the table.  Identical (sig, raw) pairs are stored once (`shapes`); `rows` maps
 (op, since_version) to its shape index.  The generated file is only rewritten when its content changes,
@@ -38,6 +43,8 @@ def read_registry(opsets=OPSETS):
     import onnx
     import onnx.defs
 
+    import onnx_ir.schemas as ir_schemas
+
     from onnxscript._internal import tape_builder, values
 
     class _B(tape_builder.TapeBuilder):
@@ -47,6 +54,19 @@ def read_registry(opsets=OPSETS):
     names = sorted({s.name for s in onnx.defs.get_all_schemas_with_history() if s.domain == ""})
     rows: dict[tuple[str, int], dict] = {}
     problems: list[str] = []
+    def raw_of(schema):
+        return [
+            (
+                p.type_str,
+                p.option == onnx.defs.OpSchema.FormalParameterOption.Variadic,
+                bool(p.is_homogeneous),
+            )
+            for p in schema.inputs
+        ]
+
+    def sig_of(signature):
+        return [(p.type_constraint.name, bool(p.variadic), bool(p.homogeneous)) for p in signature.inputs]
+
     for v in opsets:
         try:
             opset = getattr(importlib.import_module("onnxscript"), f"opset{v}")
@@ -54,57 +74,55 @@ def read_registry(opsets=OPSETS):
             problems.append(f"onnxscript has no opset{v}")
             continue
         for name in names:
+            # the registry itself (not code under test): which schema *is* (name, opset v)
+            try:
+                ref = onnx.defs.get_schema(name, v, "")
+            except onnx.defs.SchemaError:
+                ref = None
             try:
                 raw_schema = tb._get_schema(name, "", v)  # the builder's lookup
             except Exception as e:  # pragma: no cover
                 problems.append(f"builder lookup {name}@{v}: {type(e).__name__}")
-                continue
+                raw_schema = None
             op = opset[name]  # the converter's / eager mode's lookup (values.Opset.__getitem__)
-            if raw_schema is None and op is None:
+            if ref is None:
+                if raw_schema is not None or op is not None:
+                    problems.append(f"{name}@{v}: not in the registry at this opset, but visible to a front end")
                 continue
-            if raw_schema is None or op is None:
-                problems.append(f"{name}@{v}: visible to only one front end")
+            if ref.deprecated or not ref.inputs:
                 continue
-            if raw_schema.deprecated or not raw_schema.inputs:
-                continue
-            sig = op.op_signature
-            if sig is None:
-                problems.append(f"{name}@{v}: no OpSignature")
-                continue
-            key = (name, raw_schema.since_version)
-            sig_inputs = [
-                (p.type_constraint.name, bool(p.variadic), bool(p.homogeneous)) for p in sig.inputs
-            ]
-            raw_inputs = [
-                (
-                    p.type_str,
-                    p.option == onnx.defs.OpSchema.FormalParameterOption.Variadic,
-                    bool(p.is_homogeneous),
+            key = (name, ref.since_version)
+            # A front end whose lookup answers with another version of the operator (or not at all) is reported as a
+            # problem (-> VIOLATION in c12.py, with a concrete call found by the sweep / history stream); the row itself
+            # is then taken from the registry so that the table stays the per-version rule.
+            if raw_schema is None or raw_schema.since_version != ref.since_version:
+                problems.append(
+                    f"{name}@{v}: builder lookup (BuilderBase._get_schema) answers with since_version "
+                    f"{getattr(raw_schema, 'since_version', None)}, the registry says {ref.since_version}"
                 )
-                for p in raw_schema.inputs
-            ]
+                raw_inputs = raw_of(ref)
+            else:
+                raw_inputs = raw_of(raw_schema)
+            sig = op.op_signature if op is not None else None
+            if sig is None or op.op_schema.since_version != ref.since_version:
+                problems.append(
+                    f"{name}@{v}: converter/eager lookup answers with since_version "
+                    f"{getattr(getattr(op, 'op_schema', None), 'since_version', None)}, the registry says {ref.since_version}"
+                )
+                sig_inputs = sig_of(ir_schemas.OpSignature.from_op_schema(ref))
+            else:
+                sig_inputs = sig_of(sig)
             names_opt = [
-                (p.name, p.option == onnx.defs.OpSchema.FormalParameterOption.Optional) for p in raw_schema.inputs
+                (p.name, p.option == onnx.defs.OpSchema.FormalParameterOption.Optional) for p in ref.inputs
             ]
-            # attributes a call must carry (used by the harness to build runnable calls)
-            req = {
-                a.name: int(a.type)
-                for a in raw_schema.attributes.values()
-                if a.required
-            }
-            allowed = {c.type_param_str: sorted(c.allowed_type_strs) for c in raw_schema.type_constraints}
             row = rows.get(key)
-            cur = dict(op=name, since=raw_schema.since_version, opsets=[v], sig=sig_inputs, raw=raw_inputs,
-                       params=names_opt, required_attrs=req, allowed=allowed,
-                       sig_since=op.op_schema.since_version)
+            cur = dict(op=name, since=ref.since_version, opsets=[v], sig=sig_inputs, raw=raw_inputs, params=names_opt)
             if row is None:
                 rows[key] = cur
             else:
                 row["opsets"].append(v)
                 if row["sig"] != sig_inputs or row["raw"] != raw_inputs:
                     problems.append(f"{name}@{v}: reading differs between opsets sharing since_version")
-            if op.op_schema.since_version != raw_schema.since_version:
-                problems.append(f"{name}@{v}: converter sees since_version {op.op_schema.since_version}, builder {raw_schema.since_version}")
     return [rows[k] for k in sorted(rows)], problems
 
 
